@@ -891,3 +891,135 @@ func lengthEstablished(c *Ctx, info *types.Info, fd *ast.FuncDecl, g *FCFG, rs *
 	})
 	return tested
 }
+
+// ---------------------------------------------------------------------------
+// R20.7 sums are published as accumulated.
+//
+// The bins accumulate float64 sums; Binning, Binning2d and the collectBinning
+// results turn them into values of the language. Mass conservation and
+// additivity are statements about those published numbers, so the published
+// value has to be the accumulated float itself: Float(v), directly or through
+// a helper that is nothing but that conversion. Any arithmetic on the way
+// (rounding "to clean up numerical noise", scaling) changes the total and
+// makes the sum of parts differ from the whole.
+
+func ruleR207(c *Ctx) {
+	vp := c.Pkg("value")
+	if vp == nil {
+		c.Undecided("package value", token.NoPos, "not found")
+		return
+	}
+	info := vp.TypesInfo
+	isFloat64 := func(t types.Type) bool {
+		b, ok := t.Underlying().(*types.Basic)
+		return ok && b.Kind() == types.Float64
+	}
+	isFloatSlice := func(t types.Type) bool {
+		for depth := 0; depth < 2; depth++ {
+			sl, ok := t.Underlying().(*types.Slice)
+			if !ok {
+				return false
+			}
+			if isFloat64(sl.Elem()) {
+				return true
+			}
+			t = sl.Elem()
+		}
+		return false
+	}
+	pureConversion := func(call *ast.CallExpr) bool {
+		if tv, ok := info.Types[call.Fun]; ok && tv.IsType() {
+			return true
+		}
+		// a helper whose body is a single return of a conversion of its parameter
+		cal := Callee(info, call)
+		if cal == nil || cal.Pkg() != vp.Types {
+			return false
+		}
+		fd := findFuncDecl(vp, cal)
+		if fd == nil || fd.Body == nil || len(fd.Body.List) != 1 {
+			return false
+		}
+		ret, ok := fd.Body.List[0].(*ast.ReturnStmt)
+		if !ok || len(ret.Results) != 1 {
+			return false
+		}
+		conv, ok := ast.Unparen(ret.Results[0]).(*ast.CallExpr)
+		if !ok || len(conv.Args) != 1 {
+			return false
+		}
+		if tv, ok := info.Types[conv.Fun]; !ok || !tv.IsType() {
+			return false
+		}
+		_, isID := ast.Unparen(conv.Args[0]).(*ast.Ident)
+		return isID
+	}
+	n := 0
+	for _, f := range vp.Syntax {
+		if name := c.Fset.Position(f.Pos()).Filename; !strings.HasSuffix(name, "binning.go") {
+			continue
+		}
+		for _, d := range f.Decls {
+			fd, ok := d.(*ast.FuncDecl)
+			if !ok || fd.Body == nil {
+				continue
+			}
+			fname := declName(vp, fd)
+			k := 0
+			ast.Inspect(fd.Body, func(x ast.Node) bool {
+				rs, ok := x.(*ast.RangeStmt)
+				if !ok || rs.Value == nil || !isFloatSlice(info.TypeOf(rs.X)) {
+					return true
+				}
+				vid, ok := rs.Value.(*ast.Ident)
+				if !ok || vid.Name == "_" || !isFloat64(info.TypeOf(vid)) {
+					return true
+				}
+				vobj := info.ObjectOf(vid)
+				// uses of the accumulated float inside calls
+				ast.Inspect(rs.Body, func(y ast.Node) bool {
+					call, ok := y.(*ast.CallExpr)
+					if !ok {
+						return true
+					}
+					uses := false
+					for _, a := range call.Args {
+						if containsNode(a, func(z ast.Node) bool {
+							id, ok := z.(*ast.Ident)
+							return ok && info.ObjectOf(id) == vobj
+						}) {
+							uses = true
+						}
+					}
+					if !uses {
+						return true
+					}
+					// append(list, <inner>) : look at the inner expression
+					if id, ok := ast.Unparen(call.Fun).(*ast.Ident); ok {
+						if _, isB := info.Uses[id].(*types.Builtin); isB {
+							return true
+						}
+					}
+					// only calls that produce a value of the language from the float
+					if !isNamed(info.TypeOf(call), modPath+"/value", "Value") && !isNamed(info.TypeOf(call), modPath+"/value", "Float") {
+						return true
+					}
+					n++
+					k++
+					key := fmt.Sprintf("%s#published-sum[%d]:%s", fname, k, nodeStr(c.Fset, call))
+					arg0 := ast.Unparen(call.Args[0])
+					if _, isID := arg0.(*ast.Ident); isID && len(call.Args) == 1 && pureConversion(call) {
+						c.OK(key, call.Pos(), "the accumulated sum is published by a plain conversion")
+					} else {
+						c.Violation(key, call.Pos(), "the accumulated sum %s is not published as it is (%s): arithmetic between the accumulator and the published value (rounding, scaling) breaks mass conservation and makes collectBinning of parts differ from binning the whole", vid.Name, nodeStr(c.Fset, call))
+					}
+					return false
+				})
+				return true
+			})
+		}
+	}
+	if n < 2 {
+		c.Undecided("value.binning#published-sums", token.NoPos, "only %d places where an accumulated sum becomes a value found", n)
+	}
+}
